@@ -16,32 +16,7 @@ from . import s4u, timing
 T = s4u.T
 INF = float("inf")
 SPEED = timing.SPEED
-KT2 = "kill-time-set-twice"
 UNKNOWN_DURATION = {"acquire", "acquire_timeout", "lock", "cv_wait", "cv_wait_for", "barrier", "get", "put", "mq_get", "mq_put", "io", "unlock"}
-INSTANT = "property-set-on-terminated-actor"
-UNSTARTED = "suspend-actor-with-unstarted-activity"
-
-
-def suspend_races_activity_start(log):
-    """True when the run stops in a round in which some actor asks to suspend x while x owns an activity without model action: created
-    but not started yet (exec_init / io_init done, start() is x's pending request), or finished but never waited for.
-    ActorImpl::suspend() then calls ActivityImpl::suspend() on it, which dereferences the null model_action_."""
-    pend = {}
-    owns = set()
-    for l in log.lines:
-        if l.get("k") == "req":
-            pend[l["a"]] = l
-            if l["op"][0] in ("exec_async", "io_async", "put_async", "get_async", "mq_put_async", "mq_get_async"):
-                owns.add(l["a"])
-        elif l.get("k") == "ret":
-            pend.pop(l["a"], None)
-    for a, l in pend.items():
-        if l["op"][0] == "suspend":
-            x = pend.get(l["op"][1])
-            if l["op"][1] in owns or (x is not None and x["t"] == l["t"] and x["op"][0] in ("exec", "exec_async", "io", "io_async")):
-                return True
-    return False
-
 
 Q = st.integers(1, 8).map(lambda k: k / 4)                      # coinciding dates are frequent by construction
 FINE = st.one_of(Q, Q, Q, st.integers(1, 2048).map(lambda k: k / 1024))
@@ -75,7 +50,7 @@ def body(draw, me, names, depth, ntmpl, allow_block=True, has_kill_time=False):
             ops.append(["suspend_self"])
         elif k == "daemonize" and draw(st.integers(0, 2)) == 0:
             ops.append(["daemonize"])
-        elif k == "killtime" and killset < (2 if draw(st.integers(0, 30)) == 0 else 1):     # a second kill time: known defect, kept rare
+        elif k == "killtime" and killset < (3 if draw(st.integers(0, 3)) == 0 else 1):     # several kill times: the last one set wins
             killset += 1
             ops.append(["set_kill_time", draw(FINE) * draw(st.sampled_from([1, 2, 4]))])
         elif k == "spawn" and depth == 0 and ntmpl > 0:
@@ -144,9 +119,9 @@ def c11_programs(draw):
         t = draw(spec_fields(True))
         has_kt = "kill_time" in t
         # the creator applies daemon / kill time / auto-restart to the child AFTER its creation, when the child has already run one slice:
-        # a child that ends at once receives them when it is terminated (known defect, see INSTANT); the others start with a sleep
+        # a child that ends at once receives them when it is terminated (they are then ignored); most children start with a sleep
         t["ops"] = draw(body("", names, 1, 0, has_kill_time=has_kt))
-        if not (t["ops"] and t["ops"][0][0] == "sleep") and draw(st.integers(0, 9)) > 0:
+        if not (t["ops"] and t["ops"][0][0] == "sleep") and draw(st.integers(0, 3)) > 0:
             t["ops"].insert(0, ["sleep", draw(FINE)])
         templates.append(t)
     actors = []
@@ -220,7 +195,8 @@ class Inst:
         self.added = []          # indices returned by the on_exit_add operations that completed
         self.susp = []           # [start, end|INF] suspension intervals (dates)
         self.susp_uncertain = False
-        self.kill_times = []     # (date set, date)
+        self.kill_times = []     # (date set, date, request record or None): the last one wins
+        self.props_uncertain = False   # child whose creator applied daemon / kill time / auto-restart while it was terminating
 
     def label(self):
         return "%s#%d" % (self.name, self.k)
@@ -277,6 +253,8 @@ def check_c11(case, log, oc, labels):
     boot = {}           # host -> names of auto-restart actors registered there
     child_tmpl = {}     # child name -> template index
     pending_spawn = {}  # actor -> template index of the spawn being executed
+    pending_rec = {}    # actor -> record of that spawn request
+    spawn_rec = {}      # child name -> record of the spawn request that created its first incarnation
     count = {}
     deadlock_t = None
     reqs = {}
@@ -307,9 +285,17 @@ def check_c11(case, log, oc, labels):
                     return
                 child_tmpl[name] = pending_spawn[parent]
                 spec = templates[child_tmpl[name]]
+                spawn_rec[name] = pending_rec[parent]
             count[name] = count.get(name, 0) + 1
             inst = Inst(name, count[name] - 1, spec, l["host"], T(l["t"]), l["n"], l["pid"])
             prev = cur.get(name)
+            if prev is not None and prev.props_uncertain:
+                # the original terminated while its creator was still applying daemon / kill time / auto-restart to it: each is ignored
+                # if it came too late, and the boot record remembers what had been applied: not modelled, both accepted
+                inst.props_uncertain = True
+                if inst.daemon:
+                    inst.daemon = "maybe"
+                labels.add("restart-of-a-child-that-ended-during-its-creation")
             if prev is not None:
                 if prev.t_end is None:
                     oc.bad("two-live-actors-with-one-name", "%s re-created at %r while its previous incarnation is alive" % (name, inst.t_new))
@@ -323,8 +309,7 @@ def check_c11(case, log, oc, labels):
                 boot.setdefault(l["host"], set()).add(name)
             kt = spec.get("kill_time", -1)
             if kt > inst.t_new:
-                inst.kill_times.append((inst.t_new, kt))
-                trigger(inst, kt, True, "kill time")
+                inst.kill_times.append((inst.t_new, kt, None))
             cur[name] = inst
             insts.append(inst)
             alive.append(inst)
@@ -345,6 +330,7 @@ def check_c11(case, log, oc, labels):
             # decided after the scan (`effects`).
             if o == "spawn":
                 pending_spawn[l["a"]] = op[1]
+                pending_rec[l["a"]] = rec
             elif o == "exit":
                 trigger(inst, t, True, "exit()")
             elif o == "kill":
@@ -371,8 +357,7 @@ def check_c11(case, log, oc, labels):
                     inst.daemon = "maybe"
                 daemons_left(t)
             elif o == "set_kill_time" and op[1] > t:
-                inst.kill_times.append((t, op[1]))
-                effects.append((inst, rec, inst, op[1], "kill time"))
+                inst.kill_times.append((t, op[1], rec))      # a date in the past is ignored (documented); the last one set wins
             elif o == "suspend_self":
                 inst.susp.append([t, INF])
                 rec["interval"] = inst.susp[-1]
@@ -407,6 +392,8 @@ def check_c11(case, log, oc, labels):
                 inst.added.append(rec["r"])
         elif k == "body_end":
             inst = cur.get(l["a"])
+            if inst is not None and inst.k == 0 and inst.name in spawn_rec and spawn_rec[inst.name]["t_ret"] is None:
+                inst.props_uncertain = True
             if inst is not None:
                 inst.started = True
                 inst.body_end = T(l["t"])
@@ -421,6 +408,8 @@ def check_c11(case, log, oc, labels):
                 oc.bad("actor-terminates-twice", "line %d: second termination record of %s" % (l["n"], l["a"]))
                 continue
             inst.t_end, inst.n_end = T(l["t"]), l["n"]
+            if inst.k == 0 and inst.name in spawn_rec and spawn_rec[inst.name]["t_ret"] is None:
+                inst.props_uncertain = True
             alive.remove(inst)
             daemons_left(inst.t_end)
         elif k == "deadlock":
@@ -434,11 +423,19 @@ def check_c11(case, log, oc, labels):
     for issuer, rec, target, date, cause in effects:
         trigger(target, date, served(issuer, rec), cause)
     for inst in insts:
+        if inst.kill_times and not inst.props_uncertain:
+            t_set, kt, rec = inst.kill_times[-1]
+            trigger(inst, kt, rec is None or served(inst, rec), "kill time")
+            if len(inst.kill_times) > 1:
+                labels.add("kill-time-replaced")
+        elif inst.kill_times:
+            for t_set, kt, rec in inst.kill_times:
+                trigger(inst, kt, False, "kill time")
+    for inst in insts:
         for rec in inst.ops:
             if rec.get("affects") is not None and not served(inst, rec):
                 rec["affects"].susp_uncertain = True
 
-    twice = [i for i in insts if len(i.kill_times) > 1]
     # ---- terminations
     for inst in insts:
         who = inst.label()
@@ -471,6 +468,10 @@ def check_c11(case, log, oc, labels):
             ok = [list(reversed(inst.inherited + list(range(j)))) for j in range(inst.spec.get("on_exit", 0) + 1)]
         elif inst.ops and inst.ops[-1]["op"][0] == "on_exit_add" and inst.ops[-1]["t_ret"] is None:
             ok += [[j] + exp for j in range(64)]
+        if inst.props_uncertain and inst.k > 0:
+            ok += [[cb for cb in o_ if cb not in inst.inherited] for o_ in ok] if inst.inherited else []
+            own = list(range(inst.spec.get("on_exit", 0))) + list(inst.added)
+            ok.append(list(reversed(own)))
         if got not in ok:
             if sorted(got) != sorted(exp):
                 oc.bad("on_exit-not-exactly-once", "%s: callbacks run %s, registered %s" % (who, got, list(reversed(exp))))
@@ -507,19 +508,6 @@ def check_c11(case, log, oc, labels):
             first = inst.ops[0] if inst.ops else None
             if first is not None and first["t_req"] != inst.t_new and not inst.suspended_at(inst.t_new):
                 oc.bad("restarted-actor-starts-late", "%s created at %r issues its first operation at %r" % (inst.label(), inst.t_new, first["t_req"]))
-    # a child that terminated before its creator's spawn returned, with a property that the creator applies afterwards
-    instant = [i for i in insts if "." in i.name and i.t_end is not None and i.t_end == i.t_new and
-               (i.spec.get("daemon") or i.spec.get("kill_time", -1) > i.t_new or i.spec.get("auto_restart"))]
-    if instant:
-        labels.add("property-set-on-terminated-child(known defect)")
-        for v in oc.violations:
-            if not v.sig.startswith(INSTANT):
-                v.sig = INSTANT + ":" + v.sig
-    if twice:
-        labels.add("kill-time-set-twice(known defect)")
-        for v in oc.violations:
-            if not v.sig.startswith(KT2):
-                v.sig = KT2 + ":" + v.sig
 
 
 def check_op(inst, rec, oc, labels):
